@@ -24,6 +24,14 @@ def call(E, n, st):
 
 
 def starred_call(E, n, st):
+    f = n.func
+    # bf.altfunc(*key): running the user's formula -- the abstract procedure FormulaRun (rely contract)
+    if isinstance(f, ast.Attribute) and f.attr == "altfunc" and len(n.args) == 1 and isinstance(n.args[0], ast.Starred) \
+            and not n.keywords and "FormulaRun" in E.reg.contracts:
+        for s1, vs in E.evs([f.value, n.args[0].value], st):
+            if isinstance(vs, Exc): yield s1, vs; continue
+            yield from apply_contract(E, E.reg.contracts["FormulaRun"], None, vs, {}, s1, n)
+        return
     raise Unsupported("*args/**kwargs call at line %s: %s" % (n.lineno, ast.unparse(n)[:60]))
 
 
